@@ -148,6 +148,11 @@ func (e *Engine) verifIntrinsic(fn *ssa.Function, args []Value) (Value, bool) {
 			u.Alts = append(u.Alts, UAlt{tAnd(tNot(c), a.G), a.S})
 		}
 		return normUStr(u), true
+	case "SymValue":
+		t := fn.Signature.Results().At(0).Type()
+		return e.symValue(t, e.concreteStr(args[0]), int(args[1].(int64)), int(args[2].(int64))), true
+	case "Clone":
+		return e.cloneValue(args[0], map[*Obj]*Obj{}, map[*MapV]*MapV{}), true
 	case "Symbolic":
 		return true, true
 	case "Fatal":
